@@ -19,6 +19,7 @@ import (
 	"sort"
 	"strconv"
 	"strings"
+	"unicode/utf8"
 )
 
 type jkind int
@@ -274,6 +275,22 @@ func (m *Machine) jsonEncode(fr *frame, t types.Type, v value, depth int) (*jnod
 			}
 			return &jnode{kind: jNum, f: f}, nil
 		case ut.Info()&types.IsString != 0:
+			if cs, ok := v.(string); ok {
+				// encoding/json replaces every invalid UTF-8 byte by U+FFFD
+				if !utf8.ValidString(cs) {
+					var sb strings.Builder
+					for i := 0; i < len(cs); {
+						r, size := utf8.DecodeRuneInString(cs[i:])
+						if r == utf8.RuneError && size == 1 {
+							sb.WriteString("\ufffd")
+						} else {
+							sb.WriteString(cs[i : i+size])
+						}
+						i += size
+					}
+					v = sb.String()
+				}
+			}
 			return &jnode{kind: jStr, s: v}, nil
 		}
 	case *types.Pointer:
